@@ -49,6 +49,9 @@ fn check_elem<B: Backend + crate::props::c03::Paths>(r: &Recipe, ctx: &mut Ctx) 
     if let Err(why) = judge::<B>(&back, &want) {
         ctx.report(format!("C01|{}|decode-of-encode-wrong-element", B::NAME), format!("decode(encode(E)): {why}"))?;
     }
+    if let Err(why) = B::other_form_roundtrip(&e) {
+        ctx.report(format!("C01|{}|affine-form-roundtrip", B::NAME), why)?;
+    }
     // whichever public route produced the 32 bytes (conversions, serialisers, Display), they decode back to E
     for (name, bytes) in <B as crate::props::c03::Paths>::paths(&e) {
         if bytes.len() != 32 {
